@@ -10,6 +10,16 @@ import (
 	"github.com/chihaya/chihaya/frontend"
 )
 
+// VerifStoppingHandler: the router of a Frontend whose Stop has begun (requests are turned away at the door).
+func VerifStoppingHandler(logic frontend.TrackerLogic, provided Config) http.Handler {
+	cfg := provided.Validate()
+	f := &Frontend{logic: logic, Config: cfg}
+	f.mu.Lock()
+	f.stopping = true
+	f.mu.Unlock()
+	return f.handler()
+}
+
 // VerifHandler mirrors NewFrontend up to (and excluding) listening and returns the router.
 func VerifHandler(logic frontend.TrackerLogic, provided Config) http.Handler {
 	cfg := provided.Validate()
